@@ -22,6 +22,8 @@ PROP = dict(
         "hashes are compared with the model's on every run and checked pairwise distinct)",
     ],
     assumptions=[
+        "Cell.hashO (TON definition for level-0 cells) is proved equal to the shared line-by-line model Cell.reprHash on level-0 "
+        "trees (hash_model_is_cell_hash) and compared with the real hash on every run",
         "collision-freedom of the hash function on the two representations compared (explicit hypothesis of "
         "address_injective / data_injective); the hash has 32-byte outputs",
         "wall-clock scheduling of the confirmation polls is an input of the model (list of clock readings and answers); "
@@ -32,10 +34,7 @@ PROP = dict(
         "injectivity is stated over the fields the version's data holds",
         "mnemonic derivation (wallet/seed.go) is not modelled",
     ],
-    partial=[
-        "Cell.hashO (TON definition for level-0 cells) is tied to the shared line-by-line model Cell.reprHash and to the "
-        "real hash by the cell.hash correspondence on the code cells, not by a Lean equivalence theorem",
-    ],
+    partial=[],
     level_text="Theorems for all inputs about the Lean model: the address is (int32 workchain, H(state-init "
                "representation)) with the state-init and data layouts of every version; the three public APIs agree; "
                "equal addresses imply equal workchain, code hash and data hash, and (per layout family) equal key and "
